@@ -209,7 +209,7 @@ def gen_inc_case(rng, big=False):
     return (L('inc', doc, style, xb(junk), steps), {'kind': kind, 'nontrivial': True, 'class': []})
 
 
-def gen_resseq_case(rng, fixed=None):
+def gen_resseq_case(rng, fixed=None, anc=None):
     """seeded defect C07/p3: several pages SHARE an indirect Resources object; inside ONE update a page is copied and its
     Resources changed (pointed to a new private resources object, or inlined; by setkey or by replacing the whole page), THEN
     add_xobject / add_graphics_state / get_or_create_resources is called for it.  Controls: the helper on the untouched
@@ -271,34 +271,43 @@ def gen_resseq_case(rng, fixed=None):
         return [L('add', D(own)), L('add', REF(top + 1, 0)), L('setkey', OID(page, 0), xb(b'Resources'), REF(top + 1, 0))], 2
 
     seq = rng.choice(['private-then-helper'] * 5 + ['helper-only', 'helper-twice', 'private-earlier-update', 'sibling-first'])
+    if shape == 'inherit-ref' and anc is None and r() < 0.5:
+        seq = rng.choice(['helper-only', 'helper-twice', 'helper-only', 'private-earlier-update', 'sibling-first'])
     page = rng.choice(pages)
     other = rng.choice([q for q in pages if q != page])
+    pre = []         # edits of what the page inherits, first in the first update
+    if shape == 'inherit-ref' and (anc if anc is not None else r() < 0.4):
+        newres = D([('Font', D([('F7', REF(1, 0))]))] + ([('XObject', D([('Old', REF(2, 0))]))] if r() < 0.5 else []))
+        pre = [L('setkey', OID(2, 0), xb(b'Resources'), newres)] if r() < 0.5 else [L('set', OID(4, 0), newres)]
+        if anc:
+            seq, page = 'helper-twice', 3
+            other = rng.choice([q for q in pages if q != page])
     steps = []
     if seq == 'private-then-helper':
         ops, _ = private(page)
         ops.append(helper(page))
         if r() < 0.4: ops.append(helper(page))
         if r() < 0.4: ops.append(helper(other))
-        steps.append(L('step', *ops))
+        steps.append(L('step', *(pre + ops)))
     elif seq == 'sibling-first':
         ops = [helper(other)]
         pops, _ = private(page)
         ops += pops + [helper(page), helper(other)]
-        steps.append(L('step', *ops))
+        steps.append(L('step', *(pre + ops)))
     elif seq == 'helper-only':
-        steps.append(L('step', helper(page)))
+        steps.append(L('step', *(pre + [helper(page)])))
     elif seq == 'helper-twice':
-        steps.append(L('step', helper(page), helper(other), helper(page)))
+        steps.append(L('step', *(pre + [helper(page), helper(other), helper(page)])))
     else:
         ops, n = private(page)
-        steps.append(L('step', *ops))
+        steps.append(L('step', *(pre + ops)))
         top += n + (1 if style == 'stream' else 0)
         steps.append(L('step', helper(page), helper(other)))
     if r() < 0.3:
         steps.append(L('step', helper(rng.choice(pages))))
     junk = b'junk %PD\n' if r() < 0.2 else b''
     return (L('inc', doc, style, xb(junk), L('steps', *steps)),
-            {'kind': 'inc-resseq-' + seq + '-' + shape, 'nontrivial': True, 'class': []})
+            {'kind': 'inc-resseq-' + seq + '-' + shape + ('-anc' if pre else ''), 'nontrivial': True, 'class': []})
 
 
 def gen_incraw_case(rng):
@@ -388,6 +397,9 @@ def gen_cases(rng, tier):
     # seeded defect C07/p3: a page's Resources changed inside the update, then add_xobject / add_graphics_state for it
     for shape in ('ref', 'refref', 'inherit-ref'):
         cases.append(gen_resseq_case(rng, fixed=shape))
+    # finding C11-inc-resources-shadow: the helper on a page that only inherits, plainly and after the update changed what it inherits
+    for anc in (False, False, True, True, True):
+        cases.append(gen_resseq_case(rng, fixed='inherit-ref', anc=anc))
     for k in range(n // 2):
         cases.append(gen_resseq_case(rng))
     return cases
